@@ -1,7 +1,7 @@
 (* C20 -- the statements of Properties/C20.v, assembled from Inv.v, Rank.v,
    Check.v and Cycle.v, and the link to the scripted simulations of Model.v. *)
 From Coq Require Import List NArith Arith Bool Lia.
-From DesVerif Require Import Own.Heap Own.Frame Own.Inv Own.Shape Own.Rank Own.Check Own.Cycle Own.Model.
+From DesVerif Require Import Own.Heap Own.Frame Own.Inv Own.Shape Own.Rank Own.Check Own.Cycle Own.World Own.Model.
 Import ListNotations.
 
 Theorem no_release_after_free s roots : inv s roots ->
